@@ -220,6 +220,11 @@ pub struct History {
     /// free-text origin (generator profile, seed) for the reader
     #[serde(default)]
     pub origin: String,
+    /// read-only transactions held open across write transactions: (opened before tx a, closed after tx b).
+    /// Such histories run on a pre-sized file and never reopen (a commit that grows the file while a reader
+    /// is open on the same thread would wait for itself - the documented single-thread limitation).
+    #[serde(default, skip_serializing_if = "Vec::is_empty")]
+    pub pins: Vec<(usize, usize)>,
 }
 
 impl History {
